@@ -1085,6 +1085,14 @@ def _inverse(func, args, kwargs):
     return like(a, out)
 
 
+@handles("linalg_inv_ex")
+def _inv_ex(func, args, kwargs):
+    """torch.linalg.inv_ex: (inverse, info) without an error check; info = 0 where the matrix is invertible (the inverse's own definedness
+    condition det != 0 is tracked by the division)"""
+    inv = _inverse(func, args[:1], {})
+    return inv, torch.zeros((), dtype=torch.int32)
+
+
 @handles("dropout", "dropout_", "alpha_dropout", "feature_dropout")
 def _dropout(func, args, kwargs):
     a = args[0]
